@@ -108,6 +108,8 @@ type Unit struct {
 	cellTab    map[*ssa.Function]map[token.Pos]*ssa.Alloc
 	aliasBase  map[*Region]*Region
 	except     map[string]*Term
+	recDepth   int
+	appending  bool // writes performed by append beyond the old length do not change the prefix identity
 }
 
 // ---------- obligations ----------
@@ -731,7 +733,7 @@ func (u *Unit) rangeOK(st *State, fr *Frame, r *Term, in ssa.Instruction) bool {
 	if u.specMode > 0 || r.C != nil {
 		return true
 	}
-	if in == nil {
+	if in == nil || (fr != nil && fr.top && u.ct != nil && u.ct.MathInt) {
 		return true
 	}
 	g := inIntRange(r)
@@ -1384,8 +1386,12 @@ func (u *Unit) convert(st *State, fr *Frame, x Value, from, to types.Type, in ss
 			return FloatV{FPFromUBV(a.T, fb), fb}, true
 		}
 		if isStringType(to) {
-			u.unsupported("int to string conversion")
-			return nil, false
+			// string(rune): 1 to 4 bytes of UTF-8 (contents not modelled)
+			sv := u.havoc(st, types.Typ[types.String], "runestr").(StringV)
+			st.assume(And(IntLe(IntK(1), sv.Len), IntLe(sv.Len, IntK(4))))
+			sv.R.fresh, sv.R.input = true, false
+			st.alloc = IntAdd(st.alloc, IntK(4))
+			return sv, true
 		}
 	case FloatV:
 		if fb := floatBits(to); fb > 0 {
